@@ -51,6 +51,7 @@ def run(ctx):
     F_.check_iszero(ctx, P, "E8.iszero", check_asserts=True, need=())
     check_handwritten_serde(ctx, P)
     check_enum_key_wrapper(ctx, P)
+    check_enum_key_wrapper_elements(ctx, P)
     ctx.assume("serde_bare, hex and the backend's point/scalar codecs are injective and mutually inverse (dependency contract)")
 
 
@@ -242,6 +243,70 @@ def check_enum_key_wrapper(ctx, P, rule="E9.keywrapper"):
             continue
         n = SP.check_reader_totality(ctx, rule, P, f, "SecretKeyEnum", ["Bls12381"], allow_default=True)
         ctx.ob(rule + ".anchor", fk, n >= 2, "%d curve tags read by %s" % (n, fk), where=where(f))
+
+
+def _tuple_components(ty):
+    """Component types of a tuple type string `(A, &B<C, D>, ..)` (references dropped), else None."""
+    ty = ty.strip()
+    if not (ty.startswith("(") and ty.endswith(")")):
+        return None
+    out, depth, cur = [], 0, ""
+    for ch in ty[1:-1]:
+        if ch in "<([":
+            depth += 1
+        elif ch in ">)]":
+            depth -= 1
+        if ch == "," and depth == 0:
+            out.append(cur)
+            cur = ""
+        else:
+            cur += ch
+    if cur.strip():
+        out.append(cur)
+    norm = lambda t: t.strip().replace("&'_ ", "").replace("&mut ", "").lstrip("&").strip()
+    return [norm(t) for t in out]
+
+
+def check_enum_key_wrapper_elements(ctx, P, rule="E9.keywrapper"):
+    """The hand-written serde pair of SecretKeyEnum agrees on what the two elements ARE, not only on their bytes in one
+    format: under each variant the writer serialises a tuple whose component types are the types the visitor asks the
+    sequence for under that curve tag (a `[u8; 32]` and a `SecretKey` have the same compact form and different
+    human-readable forms)."""
+    from . import spec as SP
+
+    w = ctx.need_fn(rule, "<SecretKeyEnum as Serialize>::serialize", P)
+    r = ctx.need_fn(rule, "<<SecretKeyEnum as Deserialize<'de>>::deserialize::SecretKeyEnumVisitor as Visitor<'de>>::visit_seq", P)
+    if w is None or r is None:
+        return
+    written = {}
+    for assume in SP.assumptions(P, w, ["SecretKeyEnum"]):
+        V = SP.variant_of(assume)
+        if not assume or V is None:
+            continue
+        ev = evaluate(w, assume)
+        tys = []
+        for _, s_ in sorted(ev.sites.items()):
+            if s_.callee[0].endswith("Serialize::serialize") and s_.callee[1]:
+                comps = _tuple_components(str(s_.callee[1][0]))
+                if comps is not None:
+                    tys.append(comps)
+            if s_.callee[0] in ("SerializeTuple::serialize_element", "SerializeSeq::serialize_element") and len(s_.callee[1]) >= 2:
+                tys.append(["#elem", str(s_.callee[1][1]).lstrip("&").strip()])
+        if tys and all(t[0] == "#elem" for t in tys):
+            tys = [[t[1] for t in tys]]
+        written[V] = tys
+    read = {}
+    for root, adt in SP.switch_roots(P, r, ["Bls12381"], computed=True):
+        for V in [v["name"] for v in P.adts["Bls12381"]["variants"]]:
+            ev = evaluate(r, {root: V})
+            read[V] = [str(s_.callee[1][-1]).strip() for _, s_ in sorted(ev.sites.items()) if s_.callee[0] == "SeqAccess::next_element" and s_.callee[1]]
+    n = 0
+    for V in sorted(set(written) | set(read)):
+        wv, rv = written.get(V), read.get(V)
+        ok = wv is not None and rv is not None and len(wv) == 1 and wv[0] == rv
+        n += 1
+        ctx.ob(rule, "elements/%s" % V, ok, "variant %s: the writer serialises %s, the visitor reads %s" % (V, wv, rv), where=where(w))
+    ctx.floor(rule, "SecretKeyEnum variants whose serde element types are compared", n, 2)
 
 
 def check_fixed_hex_reader(ctx, P, rule="E9.fixed-hex"):
